@@ -1036,11 +1036,14 @@ def c12(prop, tier, seed):
     shutil.rmtree(ldir, ignore_errors=True)
     lin_extra, lin_n, lin_ev, lin_states = {}, 0, 0, 0
     try:
-        for k, (ncl, ntr, nev) in enumerate(((3, 10, 600), (2, 4, 600), (4, 4, 500)) if tier == "quick" else ((3, 150, 1000), (2, 60, 1000), (4, 60, 800))):
+        for k, (ncl, ntr, nev) in enumerate(() if (mism or races) else (((3, 10, 600), (2, 4, 600), (4, 4, 500)) if tier == "quick" else ((3, 150, 1000), (2, 60, 1000), (4, 60, 800)))):
             sub = os.path.join(ldir, str(k))
             lres, lerr = run_harness("lin", ["-seed", seed * 10 + k, "-traces", ntr, "-events", nev, "-clients", ncl, "-out", sub], race=True, timeout=3000,
                                      env_extra={"GORACE": "exitcode=0 history_size=3"})
             races += race_reports(lerr)
+            mism += tagged(lres["mismatches"], prop)
+            if lres["mismatches"]:
+                break
             for kk, vv in lres.get("extra", {}).items():
                 lin_extra[kk] = lin_extra.get(kk, 0) + vv
             n, ne, st, mm = lintrace.validate_dir(sub, par=12)
@@ -1051,7 +1054,7 @@ def c12(prop, tier, seed):
                 break
     finally:
         shutil.rmtree(ldir, ignore_errors=True)
-    if lin_n == 0 or not lin_extra.get("caches_without_watcher"):
+    if not (mism or races) and (lin_n == 0 or not lin_extra.get("caches_without_watcher")):
         raise ToolFailure("vacuous: no linearizability trace recorded, or no cache without watcher in any of them")
     seen = set()
     for r in races:
